@@ -376,7 +376,7 @@ pub fn c01(tier: Tier) -> ! {
         dense_steps: 400,
         shapes: crate::rsx::start_shapes(tier).into_iter().filter(|s| !s.is_lj()).collect(),
     };
-    let (rf, rstarts) = crate::rsx::sweep(&sweep_cfg, &crate::rsx::Wants { c01: true, c04: false, c05: false, c08: false });
+    let (rf, rstarts) = crate::rsx::sweep(&sweep_cfg, &crate::rsx::Wants { c01: true, c04: false, c05: false, c08: false, c19: false });
     for (w, c) in rf.c01 {
         run.fail(None, &w, c);
     }
@@ -566,6 +566,8 @@ pub fn c03_shapes() -> Vec<ShapeSpec> {
         ShapeSpec::LjTrimer(1., 180., 2.),
         ShapeSpec::LjTrimer(0.5, 60., 1.2),
         // particles whose well depth is not 1: alone, and next to an equally sized unit one
+        // (a wide trimer: sigma 4 of the outer particles exceeds their cutoff 3.5)
+        ShapeSpec::LjTrimer(2., 120., 1.),
         ShapeSpec::LjCustom("disc-eps3".into(), vec![(0., 0., 1., 3., Some(2.5))]),
         ShapeSpec::LjCustom("dumbbell-eps1-4".into(), vec![(-0.5, 0., 1., 1., Some(2.5)), (0.5, 0., 1., 4., Some(2.5))]),
     ]
@@ -906,6 +908,16 @@ pub fn c04_judge(group: &str, placements: &[Aff], probe_pts: &[P2], p: &Params) 
     }
     // placed point sets
     let sets: Vec<Vec<P2>> = placements.iter().map(|a| probe_pts.iter().map(|q| a.apply(*q)).collect()).collect();
+    c04_judge_sets(group, &sets, p)
+}
+
+/// The same judge on point sets placed by the crate's own shape transform.
+pub fn c04_judge_sets(group: &str, sets: &[Vec<P2>], p: &Params) -> Option<String> {
+    let ops = ita_ops(group);
+    let lat = p.lattice();
+    if sets.len() != ops.len() {
+        return Some(format!("{} placed copies for a group of order {}", sets.len(), ops.len()));
+    }
     let scale = lat.a[0].abs().max(norm(lat.b)).max(1.);
     for (oi, op) in ops.iter().enumerate() {
         // Cartesian operation: x -> M W M^-1 x + M w
@@ -960,7 +972,15 @@ pub fn c04(tier: Tier) -> ! {
         v["items"][2]["sigma"] = json!(0.9);
         v
     };
-    let probes: Vec<(&str, Value)> = vec![("hard", hard.json()), ("lj", lj)];
+    let mol = {
+        // a hard trimer with unequal arms and radii, through JSON
+        let mut v = ShapeSpec::Trimer(0.637556, 100., 1.).json();
+        v["items"][1]["position"] = json!([-0.9, 0.3]);
+        v["items"][2]["position"] = json!([0.6, 0.45]);
+        v["items"][2]["radius"] = json!(0.45);
+        v
+    };
+    let probes: Vec<(&str, Value)> = vec![("hard", hard.json()), ("lj", lj), ("mol", mol)];
     let mut jobs = vec![];
     for g in GROUP_NAMES.iter() {
         for (kind, sj) in probes.iter() {
@@ -988,7 +1008,9 @@ pub fn c04(tier: Tier) -> ! {
                                 let p = Params { length, ratio, angle, x, y, phi };
                                 let st = AnyState::from_json(&tpl.with(&p)).unwrap_or_else(|e| machinery_error(&e));
                                 evals += 1;
-                                if let Some(what) = c04_judge(group, &st.cartesian(), &pts, &p) {
+                                // "mol": the copies as the crate's own shape transform places them
+                                let verdict = if kind == "mol" { c04_judge_sets(group, &st.placed_points(), &p) } else { c04_judge(group, &st.cartesian(), &pts, &p) };
+                                if let Some(what) = verdict {
                                     fc += 1;
                                     if fails.len() < 2 {
                                         fails.push((format!("{} ({}): {}", group, kind, what), json!({"engine": "state", "group": group, "shape": sj, "params": p.json()})));
@@ -1002,7 +1024,7 @@ pub fn c04(tier: Tier) -> ! {
         }
         // states produced by the constructors: family and initial cell
         for spec in [ShapeSpec::Polygon(4), ShapeSpec::Trimer(0.637556, 120., 1.), ShapeSpec::LjTrimer(0.637556, 120., 1.), ShapeSpec::LjCircle].iter() {
-            if (kind == "lj") != spec.is_lj() {
+            if (kind == "lj") != spec.is_lj() || kind == "mol" {
                 continue;
             }
             let st = AnyState::from_group(group, spec);
@@ -1083,7 +1105,7 @@ pub fn c04(tier: Tier) -> ! {
     run.set("ordered_group_pairs_placed_on_one_thread", pair_n);
     // states reached by optimisation (angle and ratio drift): chained-stage search
     let sweep_cfg = crate::rsx::Sweep { depth: tier.pick(3, 5), cap: tier.pick(1000, 50_000), dense_steps: 300, shapes: crate::rsx::start_shapes(tier) };
-    let (rf, rstarts) = crate::rsx::sweep(&sweep_cfg, &crate::rsx::Wants { c01: false, c04: true, c05: false, c08: false });
+    let (rf, rstarts) = crate::rsx::sweep(&sweep_cfg, &crate::rsx::Wants { c01: false, c04: true, c05: false, c08: false, c19: false });
     for (w, c) in rf.c04 {
         run.fail(None, &w, c);
     }
